@@ -356,6 +356,8 @@ struct MapDamage : Family {
 			Line u = mkline("world", "units");
 			bool zero = r.chance(1, 4);
 			u.set("count", zero ? 0 : 1 + r.below(100)).set("size", zero ? r.below(300) : 120).set("n1", r.below(3)).set("n2", r.below(5)).set("nextfree", r.below(3)).set("firstfree", r.below(3)).set("seed", hex64(r.next()));
+			// what the opaque unit records hold is the game's business - including words that equal the file's own version tag
+			if (r.chance(1, 3)) u.set("ufill", 1 + r.below(2)).set("urot", r.chance(2, 3) ? 0 : r.below(4));
 			p.world.push_back(u);
 		}
 		p.damage.push_back(mkline("damage", large ? "large" : "all"));
@@ -369,7 +371,7 @@ struct MapDamage : Family {
 		bool saved = false, have = false;
 		for (auto& l : plan.world) {
 			if (l.verb == "map") { m = mapFromSpec(l); have = true; }
-			if (l.verb == "units") { saved = true; u.unitCount = static_cast<uint32_t>(l.u("count")); u.unitSize = static_cast<uint32_t>(l.u("size", 120)); u.n1 = static_cast<uint32_t>(l.u("n1")); u.n2 = static_cast<uint32_t>(l.u("n2")); u.nextFree = static_cast<uint32_t>(l.u("nextfree")); u.firstFree = static_cast<uint32_t>(l.u("firstfree")); u.seed = l.u("seed", 1); }
+			if (l.verb == "units") { saved = true; u.unitCount = static_cast<uint32_t>(l.u("count")); u.unitSize = static_cast<uint32_t>(l.u("size", 120)); u.n1 = static_cast<uint32_t>(l.u("n1")); u.n2 = static_cast<uint32_t>(l.u("n2")); u.nextFree = static_cast<uint32_t>(l.u("nextfree")); u.firstFree = static_cast<uint32_t>(l.u("firstfree")); u.seed = l.u("seed", 1); u.fill = static_cast<uint32_t>(l.u("ufill", 0)); u.rot = static_cast<uint32_t>(l.u("urot", 0)); }
 		}
 		if (!have) throw std::runtime_error("no map in plan");
 		std::vector<Field> fields;
